@@ -7,6 +7,10 @@ import CCVerif.Lemmas.CheckerSoundTop
 import CCVerif.Lemmas.CheckerTotal
 import CCVerif.Model.CheckerPinned
 import CCVerif.Model.CheckerPinnedRec
+import CCVerif.Spec.VClass
+import CCVerif.Lemmas.VClassSpec
+import CCVerif.Lemmas.VClassSound
+import CCVerif.Lemmas.VClassTop
 /-!
 # C03 — the checker's verdict and typification follow the typing rules
 
@@ -820,5 +824,162 @@ theorem check_sound_statement_false : ¬ check_sound_statement := by
       simp only [List.mem_cons, List.not_mem_nil, or_false] at hk; subst hk; exact .sGlobal (Or.inl rfl))))))
   exact check_sound_needs_predtype_counterexample.2 _ _
     (h ctxP [] exPredSet _ hw check_sound_needs_predtype_counterexample.1)
+
+/-! ## the value-class audit against its declarative specification (Spec/VClass.lean) -/
+
+private theorem vEids_critical {eid : Nat} (h : eid ∈ vEids) : isCritical eid = true := by
+  simp only [vEids, List.mem_cons, List.not_mem_nil, or_false] at h
+  rcases h with rfl | rfl | rfl | rfl <;> decide
+
+/-- **vclass_sound**: on an input of the parser's shape (`WfTop`, ranges nested `WfRange`), in a context
+whose stored function definitions have the parser's shape too (`AstsWf`), for every fuel: when the
+`ValueAuditor` model accepts with class `c`, the rules of `Spec/VClass.lean` derive `c` for the input —
+and the audit has logged nothing -/
+theorem vclass_sound (Γ : Ctx) (xs : List String) (e : Ast) (hΓ : AstsWf Γ) (hg : WfTop Γ xs e) (hw : WfRange e)
+    (n : Nat) (c : VClass) (h : (vcheck Γ n e).out = some c) :
+    HasVClassTop Γ e c ∧ (vcheck Γ n e).errs = [] := by
+  have hrun := top_sound hΓ n hg hw {}
+  unfold vcheck at h ⊢
+  generalize vVisit Γ n true [] e {} = r at hrun h ⊢
+  obtain ⟨r, s⟩ := r
+  cases r with
+  | ok u =>
+    simp only [Option.some.injEq] at h
+    subst h
+    refine ⟨hrun.1, ?_⟩
+    have : s.errs = [] := hrun.2
+    simp [this]
+  | fail => simp at h
+  | stuck x => simp at h
+
+/-- **vclass_complete**: when the rules derive class `c` for an input (any tree, any context — the
+derivation carries everything that is needed), the model returns exactly `c`, is not stuck and logs
+nothing, for every sufficiently large fuel (the bound is read off the derivation: its height, which
+counts the nesting of audited function bodies) -/
+theorem vclass_complete (Γ : Ctx) (e : Ast) (c : VClass) (h : HasVClassTop Γ e c) :
+    ∃ N, ∀ n, N ≤ n → (vcheck Γ n e).out = some c ∧ (vcheck Γ n e).stuck = none ∧ (vcheck Γ n e).errs = [] := by
+  obtain ⟨N, hN⟩ := conv_top h
+  refine ⟨N, fun n hn => ?_⟩
+  unfold vcheck
+  rw [hN n hn true]
+  exact ⟨rfl, rfl, rfl⟩
+
+/-- **vclass_deterministic**: the rules give an input at most one class -/
+theorem vclass_deterministic (Γ : Ctx) (e : Ast) (c c' : VClass) (h : HasVClassTop Γ e c)
+    (h' : HasVClassTop Γ e c') : c = c' := by
+  obtain ⟨N, hN⟩ := vclass_complete Γ e c h
+  obtain ⟨N', hN'⟩ := vclass_complete Γ e c' h'
+  have h1 := (hN (N + N') (by omega)).1
+  have h2 := (hN' (N + N') (by omega)).1
+  rw [h1] at h2
+  exact Option.some.inj h2
+
+/-- **vclass_reject_logs**: when the model rejects (returns `false`, not a faulting site) an input of
+the parser's shape, it has logged exactly one error: one of `invalidPropertyUsage`, `globalNoValue`,
+`globalMissingAST`, `globalFuncNoInterpretation`, critical, positioned inside the expression -/
+theorem vclass_reject_logs (Γ : Ctx) (xs : List String) (e : Ast) (hΓ : AstsWf Γ) (hg : WfTop Γ xs e)
+    (hw : WfRange e) (n : Nat) (h : (vcheck Γ n e).out = none) (hs : (vcheck Γ n e).stuck = none) :
+    ∃ err, (vcheck Γ n e).errs = [err] ∧ err.1 ∈ vEids ∧ isCritical err.1 = true ∧ InRange e err := by
+  have hrun := top_sound hΓ n hg hw {}
+  unfold vcheck at h hs ⊢
+  generalize vVisit Γ n true [] e {} = r at hrun h hs ⊢
+  obtain ⟨r, s⟩ := r
+  cases r with
+  | ok u => simp at h
+  | fail =>
+    obtain ⟨err, e1, e2, e3, e4⟩ := hrun.1 rfl
+    have : s.errs = [err] := e1
+    exact ⟨err, by simp [this], e2, vEids_critical e2, e3, e4⟩
+  | stuck x => simp at hs
+
+/-- a rejected input of the parser's shape has no class in the rules either, whenever the fuel that was
+used is large enough for the derivation in question (in particular: no derivation exists when the model
+rejects for every fuel) -/
+theorem vclass_reject_no_class (Γ : Ctx) (e : Ast) (h : ∀ N, ∃ n, N ≤ n ∧ (vcheck Γ n e).out = none) :
+    ∀ c, ¬ HasVClassTop Γ e c := by
+  intro c hc
+  obtain ⟨N, hN⟩ := vclass_complete Γ e c hc
+  obtain ⟨n, hn, hout⟩ := h N
+  rw [(hN n hn).1] at hout
+  cases hout
+
+/-! ### non-vacuity: one value, one property, one rejected misuse, one call with a property argument -/
+
+/-- `X1`, `S1` are values -/
+def ctxV : Ctx :=
+  { vclass := [("X1", .value), ("S1", .value)] }
+
+theorem ctxV_asts : AstsWf ctxV := fun f tree fd body h => by simp [ctxV, lookup] at h
+
+private theorem wfr2 (t : Tok) (d : TokData) (lo hi : Int) (a b : Ast) (h : lo < hi) (ha : WfRange a) (hb : WfRange b)
+    (h1 : lo ≤ a.lo ∧ a.hi ≤ hi) (h2 : lo ≤ b.lo ∧ b.hi ≤ hi) : WfRange (.node t d lo hi [a, b]) := by
+  refine .node h ?_ ?_
+  · intro k hk; simp only [List.mem_cons, List.not_mem_nil, or_false] at hk
+    rcases hk with rfl | rfl <;> assumption
+  · intro k hk; simp only [List.mem_cons, List.not_mem_nil, or_false] at hk
+    rcases hk with rfl | rfl <;> assumption
+
+private theorem wfr1 (t : Tok) (d : TokData) (lo hi : Int) (a : Ast) (h : lo < hi) (ha : WfRange a)
+    (h1 : lo ≤ a.lo ∧ a.hi ≤ hi) : WfRange (.node t d lo hi [a]) := by
+  refine .node h ?_ ?_
+  · intro k hk; simp only [List.mem_cons, List.not_mem_nil, or_false] at hk; subst hk; assumption
+  · intro k hk; simp only [List.mem_cons, List.not_mem_nil, or_false] at hk; subst hk; assumption
+
+/-- `X1∪S1`: a value -/
+def exVValue : Ast := .node .UNION .none 0 5 [glob "X1" 0 2, glob "S1" 3 5]
+/-- `ℬ(X1)`: a property -/
+def exVProps : Ast := .node .BOOLEAN .none 0 6 [glob "X1" 3 5]
+/-- `card(ℬ(X1))`: a property where a value is needed -/
+def exVMisuse : Ast := .node .CARD .none 0 12 [.node .BOOLEAN .none 5 11 [glob "X1" 8 10]]
+
+example : WfTop ctxV [] exVValue :=
+  .ofDef (.expr (Or.inl (.sSetbin (Or.inl rfl) (.sGlobal (Or.inl rfl)) (.sGlobal (Or.inl rfl)))))
+example : WfRange exVValue :=
+  wfr2 _ _ _ _ _ _ (by decide) (wf_leaf _ _ _ _ (by decide)) (wf_leaf _ _ _ _ (by decide)) (by decide) (by decide)
+example : (vcheck ctxV 3 exVValue).out = some .value := by decide +kernel
+/-- the derivation, written out: both operands are values, so the union is -/
+example : HasVClassTop ctxV exVValue .value :=
+  .ofDef (.expr (.union (c1 := .value) (c2 := .value) (Or.inl rfl)
+    (.global (Or.inl rfl) (by decide) (by decide)) (.global (Or.inl rfl) (by decide) (by decide))))
+
+example : WfTop ctxV [] exVProps :=
+  .ofDef (.expr (Or.inl (.sUnary (Or.inr (Or.inl rfl)) (.sGlobal (Or.inl rfl)))))
+example : (vcheck ctxV 3 exVProps).out = some .props := by decide +kernel
+example : HasVClassTop ctxV exVProps .props :=
+  .ofDef (.expr (.boolean (c := .value) (.global (Or.inl rfl) (by decide) (by decide))))
+
+example : WfTop ctxV [] exVMisuse :=
+  .ofDef (.expr (Or.inl (.sUnary (Or.inl rfl) (.sUnary (Or.inr (Or.inl rfl)) (.sGlobal (Or.inl rfl))))))
+example : WfRange exVMisuse :=
+  wfr1 _ _ _ _ _ (by decide) (wfr1 _ _ _ _ _ (by decide) (wf_leaf _ _ _ _ (by decide)) (by decide)) (by decide)
+/-- the misuse is rejected with `invalidPropertyUsage` at the position of `ℬ(X1)` -/
+example : (vcheck ctxV 4 exVMisuse).out = none ∧ (vcheck ctxV 4 exVMisuse).stuck = none ∧
+    (vcheck ctxV 4 exVMisuse).errs = [(EID.invalidPropertyUsage, 5)] := by decide +kernel
+/-- and the rules give it no class: `card` needs a value, `ℬ(X1)` is a property -/
+example : ∀ c, ¬ HasVClassTop ctxV exVMisuse c := by
+  intro c h
+  cases h with
+  | ofDef h => cases h with
+    | expr h => cases h with
+      | const ht => rcases ht with h | h | h <;> cases h
+      | collect ht => rcases ht with h | h <;> cases h
+      | needValue _ ha => cases ha with
+        | const ht => rcases ht with h | h | h <;> cases h
+        | needValue ht => rcases ht with h | h | h | h | h | h <;> cases h
+        | collect ht => rcases ht with h | h <;> cases h
+
+/-- a call with a property argument audits the stored body: with `F1:==[a∈ℬ(R1)] a∪a` of class `value`,
+`F1[X1]` is a value and `F1[ℬ(X1)]` a property (the parameter `a` stands for a property in `a∪a`) -/
+def ctxVF : Ctx :=
+  { vclass := [("X1", .value), ("F1", .value)],
+    asts := [("F1", .node .PUNC_DEFINE .none 0 20 [.node .ID_FUNCTION (.text "F1") 0 2 [],
+      .node .NT_FUNC_DEFINITION .none 5 20 [
+        .node .NT_ARGUMENTS .none 6 13 [.node .NT_ARG_DECL .none 6 13 [loc "a" 6 7,
+          .node .BOOLEAN .none 8 13 [.node .ID_RADICAL (.text "R1") 10 12 []]]],
+        .node .UNION .none 16 19 [loc "a" 16 17, loc "a" 18 19]]])] }
+example : (vcheck ctxVF 5 (.node .NT_FUNC_CALL .none 0 6 [.node .ID_FUNCTION (.text "F1") 0 2 [], glob "X1" 3 5])).out
+    = some .value := by decide +kernel
+example : (vcheck ctxVF 5 (.node .NT_FUNC_CALL .none 0 10 [.node .ID_FUNCTION (.text "F1") 0 2 [],
+    .node .BOOLEAN .none 3 9 [glob "X1" 6 8]])).out = some .props := by decide +kernel
 
 end CCVerif.C03
